@@ -56,7 +56,7 @@ SPEC = {
         "min-gap demand for refrac = R*dt is floor(refrac/dt) computed from the doubles; with non-dyadic dt (0.1, 0.3) the quotient of the doubles decides (partial: float)",
         "functional API with frequency*refrac >= 1000 under compensation (documented as nonsensical; unreachable through the modules) carries no demand: only model = code is compared there",
         "device CPU; sample replay through the Lean driver on tensors of at most a few dozen elements (element-wise code; broadcasting itself is torch's); "
-        "the volume stream (12k..50k elements x 100..400 steps, float32 and float64 inputs) is judged by the closed-form demands only, without a model comparison",
+        "the volume stream (12k..32k elements x 100..400 steps, float32 and float64 inputs) is judged by the closed-form demands only, without a model comparison",
         "tiny-first-sample probes rank seeds by the first `empty(shape).exponential_()` draw (search over the sampler, not the code); the probed element is the argmin of the exact first row the function draws",
     ],
 }
@@ -756,7 +756,7 @@ def tiny_sample_cases(rng, nseeds, per):
 # driver: judged against the closed-form demands of the specification (time-first rows == steps, bool, silent at
 # rate 0, inter-spike distance >= floor(refrac/dt), reproducible from the same generator state).
 
-VOLUMES = [((32, 32, 32), 150), ((16, 1, 28, 28), 400), ((64, 28, 28), 100), ((4, 3, 32, 32), 400), ((8, 64, 64), 150)]
+VOLUMES = [((32, 32, 32), 150), ((16, 1, 28, 28), 400), ((40, 28, 28), 150), ((4, 3, 32, 32), 400), ((8, 64, 64), 150)]
 
 
 def gen_volume_case(rng, op, api):
@@ -1213,7 +1213,7 @@ def explore(ctx) -> Exploration:
         n_ = numel(c["shape"]) * (1 if c["op"] == "berninh" else c["steps"])
         vol_element_steps += n_ - len(c["volume"]["lit"]) * (1 if c["op"] == "berninh" else c["steps"])
         already = {f.key for f in ex.findings}
-        fs, out = volume_findings(c, shrink=True)
+        fs, out = volume_findings(c, shrink=not any(k.startswith(f"C19:spec:{c['op']}:") for k in already))
         if out is not None and bool(out.any()):
             ex.nontriv(("volume", c["op"], c["api"], c["seed"], c["steps"], c["dt"], c.get("refrac"), c.get("comp"), c["freq"], tuple(c["shape"]), c["dtype"]))
         ex.findings += [f for f in fs if f.key not in already]
@@ -1249,7 +1249,7 @@ def explore(ctx) -> Exploration:
                "non-trivial = the real train contains at least one spike; plus attempts to reach an incompatible configuration through constructor and each setter (must raise ValueError), "
                "and constructor/setter sequences (exhaustive constructor grid, every single setter from four base states, random sequences) compared with the configuration machine after every call")
     ex.rule += ("; tiny-first-sample probes (seeds ranked by the smallest first exponential sample, found by searching the sampler only; that element is silent or at full intensity; "
-                "windows of 40..400 steps); volume stream (all seven functions, functional and module API, float32/float64 inputs: image-like tensors of 12k..50k elements, all exact zeros "
+                "windows of 40..400 steps); volume stream (all seven functions, functional and module API, float32/float64 inputs: image-like tensors of 12k..32k elements, all exact zeros "
                 "except 8..64 lit elements, 100..400 steps: judged by the closed-form demands - shape, bool, silence at zero, refractory distance, reproducibility)")
     ex.samples = [obs[0]["line"][:300], obs[nb]["line"][:300] if len(obs) > nb else "", ecases[-1]]
     ex.extra["streams"] = {"boundary": nb, "random_valid": len(cases) - nb - len(nonrep) - len(excluded), "non_representable": len(nonrep),
